@@ -14,7 +14,7 @@ from typing import Dict, List, Optional, Tuple
 import common
 import spec as S
 
-GEN_VERSION = "31"
+GEN_VERSION = "32"
 
 STRUM_DERIVES = ["EnumString", "Display", "AsRefStr", "IntoStaticStr", "VariantNames", "EnumIter", "EnumCount", "FromRepr",
                  "VariantArray", "EnumDiscriminants", "EnumIs", "EnumTryAs", "EnumMessage", "EnumProperty", "EnumTable",
@@ -126,8 +126,16 @@ class E:
         if any(d in STRUM_DERIVES for d in self.derives):
             if single:
                 out.insert(4, "#[cfg(feature = \"renamed\")] use crate::reexp::strum_renamed as st;")
-            out.append("#[cfg_attr(feature = \"renamed\", strum(crate = \"%s\"))]" % cpath)
-        for a in self.attrs:
+        # the `crate = ..` attribute is written before the other enum-level #[strum(..)] attributes for a third of the enums,
+        # after them for a third, and between them otherwise (a derive that reads only the first / last attribute loses it)
+        crate_line = "#[cfg_attr(feature = \"renamed\", strum(crate = \"%s\"))]" % cpath if any(d in STRUM_DERIVES for d in self.derives) else None
+        pos = (sum(ord(c) for c in self.name) // 2) % 3
+        attr_lines = ["#[strum(%s)]" % ", ".join(a) for a in self.attrs if a]
+        if crate_line:
+            at = 0 if pos == 0 else (len(attr_lines) if pos == 1 else (len(attr_lines) + 1) // 2)
+            attr_lines.insert(at, crate_line)
+        out += attr_lines
+        for a in []:
             if a:
                 out.append("#[strum(%s)]" % ", ".join(a))
         if any(("derive(" in m and any(d in m for d in STRUM_DERIVES)) for a in self.disc_attrs for m in a):
